@@ -110,15 +110,15 @@ class C04(Property):
         "workflow output, multi-input grouping steps see the same tag set on all inputs",
         "a failure is a step raising inside its run loop (status FAILED); recovery (failure manager) is not enabled in these runs",
     ]
-    quick_budget_s = 240
-    thorough_budget_s = 1500
+    quick_budget_s = 420
+    thorough_budget_s = 2400
     min_nontrivial = 20
 
     def _plan(self, ctx: Ctx):
         if ctx.tier == "thorough":
             n, k = 500, 8
         else:
-            n, k = 70, 3
+            n, k = 50, 3
         if ctx.mode == "search":
             n, k = n * 2, k * 3
         return n, k
